@@ -45,7 +45,6 @@ META = {
 }
 
 KNOWN_DIR = os.path.join(build.VERIF, 'known', 'C29')
-KEY_CONTAINERS = 'nondet:dump-containers-order'
 
 # ------------------------------------------------------------------------------------ dump canonicalisation
 _ID_DEF = re.compile(rb' id="([0-9a-f]{5,16})"')
@@ -78,15 +77,43 @@ def canon_dump(data):
     return _ATTR.sub(sub, data), len(table)
 
 
-_CONT = re.compile(rb'(  <containers>\n)(.*?)(  </containers>\n)', re.S)
+_SECTION = re.compile(rb'^(  <([\w-]+)>\n)(.*?)^(  </\2>\n)', re.S | re.M)
+_CHILD = re.compile(rb'^(?=    <[A-Za-z])', re.M)
 
 
-def sort_containers(canon):
-    """classification aid only: the <container> elements of every <containers> section in sorted order"""
-    def sub(m):
-        parts = re.split(rb'(?=    <container )', m.group(2))
-        return m.group(1) + b''.join(sorted(parts)) + m.group(3)
-    return _CONT.sub(sub, canon)
+def localise(ca, cb):
+    """Compare two canonical dumps section by section (sections = the 2-space indented elements of a
+    <dump>, e.g. <tokenlist>, <scopes>, <variables>, <containers>, <valueflow>).
+    -> (names of sections whose direct children are the same multiset in a different order,
+        canonical texts in which exactly those sections have their children sorted)
+    Used only to give an order defect a stable key naming the section; any other difference stays."""
+    order_only = []
+    sa, sb = list(_SECTION.finditer(ca)), list(_SECTION.finditer(cb))
+    if [m.group(2) for m in sa] != [m.group(2) for m in sb]:
+        return [], ca, cb
+    fix = set()
+    for i, (ma, mb) in enumerate(zip(sa, sb)):
+        if ma.group(3) == mb.group(3):
+            continue
+        ka, kb = _CHILD.split(ma.group(3)), _CHILD.split(mb.group(3))
+        if sorted(ka) == sorted(kb):
+            fix.add(i)
+            name = ma.group(2).decode()
+            if name not in order_only:
+                order_only.append(name)
+    if not fix:
+        return [], ca, cb
+
+    def norm(c):
+        n = [-1]
+
+        def sub(m):
+            n[0] += 1
+            if n[0] not in fix:
+                return m.group(0)
+            return m.group(1) + b''.join(sorted(_CHILD.split(m.group(3)))) + m.group(4)
+        return _SECTION.sub(sub, c)
+    return order_only, norm(ca), norm(cb)
 
 
 def first_diff(a, b, ctxlines=2):
@@ -306,17 +333,20 @@ def compare(ctx, case, ref, out, pert, roots):
             if ca == cb:
                 continue
             found = True
-            sa, sb = sort_containers(ca), sort_containers(cb)
+            sections, sa, sb = localise(ca, cb)
+            for sec in sections:
+                ctx.count('localised', sec + '-order')
+                _report(ctx, case, 'nondet:dump-%s-order' % sec,
+                        'the children of the dump\'s <%s> section are the same elements in a different order '
+                        '(iteration order of a pointer-keyed container reaches the output): %s differs under '
+                        'perturbation %s\n%s' % (sec, rel, pert.name, first_diff(ca, cb)),
+                        ref, out, pert, k, roots, rel)
             if sa == sb:
-                ctx.count('localised', 'containers-order')
-                _report(ctx, case, KEY_CONTAINERS,
-                        'the <container> elements of the dump\'s <containers> section are written in pointer order '
-                        '(std::set<const Library::Container*> in Tokenizer::dump): %s differs under perturbation %s\n%s'
-                        % (rel, pert.name, first_diff(ca, cb)), ref, out, pert, k, roots, rel)
                 continue
             key = 'nondet:%s:dump:%s' % (pert.cls, case.digest)
-            what = 'dump %s differs after renaming ids by first occurrence (perturbation %s)\n%s' % (
-                rel, pert.name, first_diff(sa, sb) if sa != ca or sb != cb else first_diff(ca, cb))
+            what = 'dump %s differs after renaming ids by first occurrence (perturbation %s)%s\n%s' % (
+                rel, pert.name, '; sections that differ in order only were sorted first: %s' % sections if sections else '',
+                first_diff(sa, sb))
             _report(ctx, case, key, what, ref, out, pert, k, roots, rel)
     return found
 
@@ -389,8 +419,11 @@ def run_case(ctx, case, idx, rng, tag='c', kinds=('text', 'xml', 'dump'), with_j
     ctx.count('hist', 'reference_findings', nfind)
     armed = {'chaos': False, 'layout': False, 'readdir': False}
     found = False
-    for pert in perturbations(ctx, case, d, idx, rng):
-        out = outputs(ctx, case, roots[pert.tree], pert, kinds)
+    for j, pert in enumerate(perturbations(ctx, case, d, idx, rng)):
+        # quick tier: every perturbation gets the dump run plus alternately the text or the XML run
+        pk = kinds if not ctx.quick() else tuple(
+            k for k in kinds if k == 'dump' or k == ('text', 'xml')[(idx + j) % 2])
+        out = outputs(ctx, case, roots[pert.tree], pert, pk)
         if out is None:
             continue
         if pert.cls == 'chaos':
@@ -416,7 +449,7 @@ def run_case(ctx, case, idx, rng, tag='c', kinds=('text', 'xml', 'dump'), with_j
                     sets = None
                     break
                 try:
-                    sets.append((r, findings.multiset(findings.parse_xml(r.err), with_file0=True), r.rc))
+                    sets.append((r, findings.multiset(findings.parse_xml(r.err)), r.rc))
                 except findings.XmlError:
                     sets.append((r, None, r.rc))
             if not sets:
@@ -470,14 +503,14 @@ def run(ctx):
     shims.so('chaos_malloc')
     shims.so('shuffle_readdir')
     replay_known(ctx)
-    n = ctx.n(27, 1200)
+    n = ctx.n(18, 600)
 
     def one(i):
         rng = ctx.subrng('case', i)
         case = make_case(ctx, rng, i)
         run_case(ctx, case, i, rng)
 
-    pmap(one, range(n), workers=6)
+    pmap(one, range(n), workers=8 if ctx.quick() else 12)
     sh = ctx.cov.get('readdir_shuffler', {})
     if not sh.get('listings_with_changed_order'):
         ctx.inconclusive('the readdir shuffler never changed a directory listing')
